@@ -49,6 +49,11 @@ Owner == [
   extend_lead |-> "extend:google.protobuf.MessageOptions", extend_field_lead |-> "extend:google.protobuf.MessageOptions/field:ext_field",
   svc_lead |-> "service:S", rpc_lead |-> "service:S/rpc:Do", rpc_in_req |-> "service:S/rpc:Do", rpc_before_returns |-> "service:S/rpc:Do",
   rpc_body |-> "service:S/rpc:Do/option:idempotency_level#1", rpc_close_lead |-> "service:S/rpc:Do", rpc_plain_trail |-> "service:S/rpc:Plain",
+  \* between the keyword `option` and the option name, in option statements that are not file options
+  enumopt_after_keyword |-> "message:M/enum:E/option:allow_alias#1",
+  msgopt_after_keyword |-> "message:M/option:(fmt.v1.msg_note)#1",
+  rpcopt_after_keyword |-> "service:S/rpc:Do/option:idempotency_level#1",
+  fileopt_after_keyword |-> "option:go_package#1",
   empty_lead |-> "message:M/*", eof |-> "eof" ]
 Sites == DOMAIN Owner
 
@@ -95,7 +100,8 @@ SiteExists(s, w) ==
     [] s \in {"lit_nested_after_sep"} -> w.lit_nested_size # "one"
     [] s \in {"lit_array_elem", "lit_array_close"} -> w.lit_array # "empty"
     [] s = "lit_array_after_comma" -> w.lit_array \in {"strings", "messages", "angle_messages"}
-    [] s \in {"rpc_body", "rpc_close_lead"} -> w.rpc_style = "body"
+    [] s \in {"rpc_body", "rpc_close_lead", "rpcopt_after_keyword"} -> w.rpc_style = "body"
+    [] s = "msgopt_after_keyword" -> w.msg_option = "simple"
     [] s = "empty_lead" -> w.empty_stmt = "in_message"
     [] s = "reserved_after_comma" -> w.reserved_form \in {"mixed", "names_only"}
     [] s = "enumval_opts" -> TRUE
